@@ -1,12 +1,12 @@
 SPECIFICATION Spec
 CONSTANTS
   TopTypes = {"int", "ptr", "AI3", "AIX", "AC4", "ACX", "APX", "MC", "B", "N", "A", "U", "SA", "SC", "SW", "AS"}
-  MaxTok = 8
+  MaxTok = 12
   MaxIdx = 2
   AllowAgg = FALSE
-  DevOn = {}
+  DevOn = {"AnonNoMem", "EmptyBraceNoFocus", "BraceNoReset", "UnionCover", "StrPatchOOB", "AutoBackZero", "ReplaceEndOnly"}
   Salt = 0
-  EmitCases = FALSE
+  EmitCases = TRUE
   Prune = TRUE
-INVARIANTS TypeOK StackDepth ListSortedDisjoint Refinement
+INVARIANTS TypeOK StackDepth ListSortedDisjoint Refinement Emit
 CHECK_DEADLOCK FALSE
